@@ -119,6 +119,11 @@ pub fn match_product(cfg: &Cfg, m: &Menu, thorough: bool) -> Vec<Act> {
             prices.push(q);
         }
     }
+    for p in &m.prices {
+        // between two ticks: one more decimal than written
+        prices.push(if p.contains('.') { format!("{p}5") } else { format!("{p}.5") });
+        prices.push(if p.contains('.') { format!("{p}04") } else { format!("{p}.004") });
+    }
     prices.push("5".into());
     prices.push("0".into());
     prices.push("abc".into());
@@ -662,7 +667,7 @@ pub fn modify_field_alts(cfg: &Cfg) -> Vec<Vec<(u8, Modify)>> {
         let mut rev = cur.clone();
         rev.reverse();
         // the last one drops a current member while repeating a kept one (same length as before)
-        vec![cur.clone(), ext, vec![cur[0].clone()], rev, vec![], vec![other.clone()], vec!["X".into()], vec![cur[0].clone(), "BAD".into()], vec![cur[0].clone(), other, cur[0].clone()], vec![cur[0].clone(), cur[0].clone()]]
+        vec![cur.clone(), ext, vec![cur[0].clone()], rev, vec![], vec![other.clone()], vec!["X".into()], vec![cur[0].clone(), "BAD".into()], vec![cur[0].clone(), other, cur[0].clone()], vec![cur[0].clone(), cur[0].clone()], vec![cur[1].clone()]]
     };
     let mut groups: Vec<Vec<(u8, Modify)>> = vec![];
     groups.push(
